@@ -262,10 +262,11 @@ def judge_union(pane, res, name, U, wrap, unwrap, members, v, cellinfo, cache):
             except Exception:  # noqa
                 continue
             cands.append(dm)
-            if values.typed_eq(dm, d) or dm == d:
+            # (typed comparison: 2 and 2.0 are different data - the int member's way of writing must not pass for the float member's)
+            if values.typed_eq(dm, d):
                 try:
                     back = pane.from_data(values.fresh(dm), M)
-                    if values.typed_eq(back, x) or back == x:
+                    if values.typed_eq(back, x):
                         ok = True
                         break
                 except Exception:  # noqa
